@@ -418,6 +418,8 @@ class History:
                     self.do_eval(seq, op, ev, uf, model, target, addr, via,
                                  acc, evaluated, pending_set)
                     pending_set = False
+            self.stats['sim_clock_seconds'] = int(amb.clock.advanced)
+            self.stats['clock_reads'] = amb.clock.reads
         return self
 
     def do_persist(self, seq, op, model):
